@@ -96,6 +96,11 @@ func newResultGroupJob[T, R any](bufferSize int) *resultGroupJob[T, R] {
 		wgc: helpers.NewWgCounter(bufferSize),
 	}
 
+	// an empty batch has no item whose Close could close the stream
+	if bufferSize == 0 {
+		gj.Response.Close()
+	}
+
 	return gj
 }
 
@@ -159,7 +164,7 @@ type EnqueuedErrGroupJob interface {
 }
 
 func newErrorGroupJob[T any](bufferSize int) *errorGroupJob[T] {
-	return &errorGroupJob[T]{
+	gj := &errorGroupJob[T]{
 		errorJob: errorJob[T]{
 			job: job[T]{
 				wg: sync.WaitGroup{},
@@ -168,6 +173,13 @@ func newErrorGroupJob[T any](bufferSize int) *errorGroupJob[T] {
 		},
 		wgc: helpers.NewWgCounter(bufferSize),
 	}
+
+	// an empty batch has no item whose Close could close the stream
+	if bufferSize == 0 {
+		gj.Response.Close()
+	}
+
+	return gj
 }
 
 func (gj *errorGroupJob[T]) NumPending() int {
